@@ -60,7 +60,7 @@ Record state := mkState {
   st_scoped : nat;                         (* SCOPED_COUNT *)
   st_def : list (tid * option inst);       (* threads holding a scoped DefaultGuard (None = Dispatch::none()) *)
   st_entries : list entry;                 (* all span stacks, newest first *)
-  st_close : tid -> nat;                   (* CLOSE_COUNT thread-local *)
+  st_close : list (tid * nat);             (* CLOSE_COUNT thread-local (absent = 0) *)
   st_handles : list (hid * hval);          (* user side: live Span values *)
   st_count : nat;                          (* spans created so far *)
   st_created : list (inst * sid * nat);    (* user side: (instance, id, creation number), newest first *)
@@ -70,7 +70,7 @@ Record state := mkState {
 }.
 
 Definition init (layers : inst -> nat) (global : option inst) : state :=
-  mkState (fun _ _ => empty_slot) layers global 0 [] [] (fun _ => 0) [] 0 [] [] [] false.
+  mkState (fun _ _ => empty_slot) layers global 0 [] [] [] [] 0 [] [] [] false.
 
 (* setters *)
 Definition set_slots f st := mkState f (st_layers st) (st_global st) (st_scoped st) (st_def st) (st_entries st) (st_close st) (st_handles st) (st_count st) (st_created st) (st_ene st) (st_cpar st) (st_panicked st).
@@ -189,10 +189,12 @@ Definition on_close_obs (st : state) (i : inst) (l : nat) (s : sid) : obs :=
   | None => OCloseGone i l
   end.
 
-Definition add_close (st : state) (t : tid) (n : nat) : state :=
-  set_close (fun t' => if t' =? t then st_close st t + n else st_close st t') st.
-Definition put_close (st : state) (t : tid) (n : nat) : state :=
-  set_close (fun t' => if t' =? t then n else st_close st t') st.
+Fixpoint cget (t : tid) (c : list (tid * nat)) : nat :=
+  match c with [] => 0 | (k, v) :: r => if k =? t then v else cget t r end.
+Fixpoint cput (t : tid) (n : nat) (c : list (tid * nat)) : list (tid * nat) :=
+  match c with [] => [(t, n)] | (k, v) :: r => if k =? t then (k, n) :: r else (k, v) :: cput t n r end.
+Definition put_close (st : state) (t : tid) (n : nat) : state := set_close (cput t n (st_close st)) st.
+Definition add_close (st : state) (t : tid) (n : nat) : state := put_close st t (cget t (st_close st) + n).
 
 (** spans.clear(idx) = Clear for DataInner, state part: the slot becomes vacant, its parent field is taken
     and its extensions are emptied.  Ghost: the parent's child list loses this span. *)
@@ -234,7 +236,7 @@ Fixpoint frames (casc : state -> inst -> sid -> state * list obs) (ls : list nat
   | [] => (st, [])
   | l :: ls' =>
     let o := on_close_obs st i l s in
-    let c := st_close st t in
+    let c := cget t (st_close st) in
     let st2 := put_close st t (c - 1) in
     let '(st3, o3) := if c =? 1 then clear_slot casc st2 t nested i s else (st2, []) in
     let '(st4, o4) := frames casc ls' st3 t nested i s in
@@ -251,8 +253,8 @@ Fixpoint close_stack (fuel : nat) (st : state) (t : tid) (nested : bool) (i : in
     let n := st_layers st i in
     let st0 := add_close st t n in
     match reg_try_close st0 i s with
-    | None => (set_panicked (put_close st0 t (st_close st0 t - n)), [OPanic 3])     (* guards unwind *)
-    | Some (st1, false) => (put_close st1 t (st_close st1 t - n), [])
+    | None => (set_panicked (put_close st0 t (cget t (st_close st0) - n)), [OPanic 3])     (* guards unwind *)
+    | Some (st1, false) => (put_close st1 t (cget t (st_close st1) - n), [])
     | Some (st1, true) => frames (fun st' j p => close_stack f st' t nested j p) (seq 0 n) st1 t nested i s
     end
   end.
